@@ -601,7 +601,7 @@ impl Check for C05 {
         ]
     }
     fn components(&self) -> Value {
-        json!({"real": ["passage_protocol::crypto::stream::CipherStream", "create_ciphers", "Connection (layer b)", "aes/cfb8 crates as used by /repo"],
+        json!({"real": ["passage_protocol::crypto::stream::CipherStream", "create_ciphers", "Connection (layer b)", "Listener::handle incl. its deadline (listener mode)", "aes/cfb8 crates as used by /repo"],
                "stub": ["transport (scripted poll-level)", "client (independent codec + CFB8)", "services (layer b)"]})
     }
     fn count(&self, tier: Tier) -> u64 {
